@@ -40,6 +40,19 @@ CHECKS = {
              "shape, bilinearity, g^2 scaling (both estimators), Hermitian PSD, Parseval; multi-channel gain-and-delay records and grid-line "
              "sinusoids fix the conjugation/pairing convention.",
         ref="3/C13"),
+    "C12": dict(
+        technique="runtime monitoring: postcondition on build_hank evaluated on all unit-impulse pairs (complete basis) + definition/projection oracles",
+        text="Exploration with an exhaustive part: for every channel count 1..4, reference subset, br 1..5 and the listed record lengths the real "
+             "build_hank is evaluated on all pairs of unit impulses, which determines the bilinear map (lag, channel, block, weight of every cell); "
+             "random larger shapes are compared entry-wise with the definition, the data-driven matrix through its projection Gram identity, and "
+             "the H stored by real SSIcov/SSIdat runs with the same oracles.",
+        ref="3/C12"),
+    "C18": dict(
+        technique="runtime monitoring: icontract postconditions on gen.MAC/MPC/MPD/MCF + metamorphic scale invariance + exact collinear values",
+        text="Exploration: range/shape/finiteness contracts (icontract.ensure) wrap the real indicator functions and fire on every call of the "
+             "workload (ten input classes, 2..64 components, factors over 12 decades) and during a real SSI run; invariance under complex scaling, "
+             "exact values on complex multiples of real vectors, MSF(v,cv)=c. Two genuine defects pinned by unit tests are reported as KNOWN-FINDING.",
+        ref="3/C18"),
 }
 
 PENDING_REASON = "check not built yet in this session (work in progress; the design in DESIGN.md section 3 applies)"
